@@ -1873,30 +1873,22 @@ class unyt_array(np.ndarray):
                 u1 = Unit(registry=getattr(u0, "registry", None))
             elif ufunc is power:
                 u1 = inp1
-                if inp0.shape == () or inp1.shape == ():
+                if inp0.shape == () or inp1.shape == () or inp0.shape == inp1.shape:
                     if isinstance(u1, unyt_array) and not u1.units.is_dimensionless:
                         raise UnitOperationError(ufunc, u0, u1.units)
                     if u1.shape == ():
                         u1 = float(u1)
                     else:
-                        u1 = 1.0
-                elif inp0.shape == inp1.shape:
-                    if isinstance(u1, unyt_array) and not u1.units.is_dimensionless:
-                        raise UnitOperationError(ufunc, u0, getattr(u1, "units", None))
-
-                    if (
-                        (isinstance(u0, Unit) and not u0.is_dimensionless)
-                        or isinstance(u0, unyt_array)
-                        and not u0.units.is_dimensionless
-                    ):
-                        # u0 has units
-                        if np.ptp(u1) != 0:
-                            raise UnitOperationError(
-                                ufunc, u0, getattr(u1, "units", None)
-                            )
-
-                    first_element_slice = (0,) * u1.ndim
-                    u1 = float(u1[first_element_slice])
+                        if not (u0.is_dimensionless and u0.base_value == 1.0):
+                            # the base has a unit (or a scale, like percent): all
+                            # elements of the result share one unit, so the
+                            # exponents must be one number
+                            if np.ptp(u1) != 0:
+                                raise UnitOperationError(
+                                    ufunc, u0, getattr(u1, "units", None)
+                                )
+                        first_element_slice = (0,) * u1.ndim
+                        u1 = float(u1[first_element_slice])
                 else:
                     raise UnitOperationError(ufunc, u0, u1)
             unit_operator = self._ufunc_registry[ufunc]
